@@ -16,6 +16,7 @@ import (
 	"encoding/base64"
 	"encoding/xml"
 	"errors"
+	"io"
 	"sync"
 
 	"mellium.im/xmlstream"
@@ -230,7 +231,8 @@ func handlePayload(h *Handler, errResp errorResponder, p dataPayload, e xmlstrea
 	}
 	b64Reader := base64.NewDecoder(base64.StdEncoding, bytes.NewReader(p.Data))
 	_, err := conn.readBuf.ReadFrom(b64Reader)
-	if errors.As(err, &inputErr) {
+	// A quantum that is cut short is as undecodable as an illegal character.
+	if errors.As(err, &inputErr) || errors.Is(err, io.ErrUnexpectedEOF) {
 		_, err := xmlstream.Copy(e, errResp.Error(stanza.Error{
 			Type:      stanza.Cancel,
 			Condition: stanza.BadRequest,
